@@ -261,6 +261,15 @@ def run_case(case):
         os.close(fd)
         return r
 
+    def serial(label, fn, *a_, **k_):
+        """a serial driver call for a valid configuration: an exception is a verdict, not a harness error"""
+        try:
+            return fn(*a_, **k_)
+        except Exception as e:  # noqa
+            viol.append(dict(what="serial_driver_raises", driver=label, exc=f"{type(e).__name__}: {str(e)[:200]}", options=desc,
+                             history="the cache directory is removed between driver calls (a user clearing the cache)"))
+            return None
+
     def compare(label, results, ctx):
         names = [t.name for t in cfg.towers]
         if list(results.keys()) != names:
@@ -361,21 +370,23 @@ def run_case(case):
         # serial drivers (timeseries per tower, multitower), cache as configured
         clean_cache()
         for tw in cfg.towers[:2]:
-            ts = iface.run_bldfm_timeseries(cfg, tw)
+            ts = serial("run_bldfm_timeseries", iface.run_bldfm_timeseries, cfg, tw)
+            if ts is None:
+                continue
             counters["driver_calls"] += 1
             compare("run_bldfm_timeseries", {t.name: (ts if t.name == tw.name else [table[(t.name, i)] for i in range(ns)]) for t in cfg.towers},
                     dict(options=desc))
         clean_cache()
-        mt = iface.run_bldfm_multitower(cfg)
+        mt = serial("run_bldfm_multitower", iface.run_bldfm_multitower, cfg) or {}
         counters["driver_calls"] += 1
         compare("run_bldfm_multitower", mt, dict(options=desc))
         if user_flux is not None:
             table, table_0 = table_u, table
             try:
-                mtu = iface.run_bldfm_multitower(cfg, surface_flux=user_flux)
+                mtu = serial("run_bldfm_multitower", iface.run_bldfm_multitower, cfg, surface_flux=user_flux) or {}
                 counters["driver_calls"] += 1
                 compare("run_bldfm_multitower", mtu, dict(options=desc, surface_flux="supplied by the caller"))
-                tsu = iface.run_bldfm_timeseries(cfg, cfg.towers[0], surface_flux=user_flux)
+                tsu = serial("run_bldfm_timeseries", iface.run_bldfm_timeseries, cfg, cfg.towers[0], surface_flux=user_flux) or []
                 counters["driver_calls"] += 1
                 compare("run_bldfm_timeseries", {t.name: (tsu if t.name == cfg.towers[0].name else [table[(t.name, i)] for i in range(ns)]) for t in cfg.towers},
                         dict(options=desc, surface_flux="supplied by the caller"))
